@@ -7,6 +7,7 @@ import (
 	"path/filepath"
 	"runtime"
 	"sort"
+	"strings"
 	"sync"
 	"sync/atomic"
 	"testing"
@@ -392,6 +393,9 @@ func TestC03(t *testing.T) {
 		}
 		v, waited, mixed := c03Run(p)
 		if v != nil {
+			if strings.Contains(v.Msg, "within") {
+				failNoShrink(replayDoc{Property: "C03", Kind: "concurrent-program", Extra: mustJSON(p)}, v)
+			}
 			failCase(rt, replayDoc{Property: "C03", Kind: "concurrent-program", Extra: mustJSON(p)}, v)
 		}
 		labels := map[string]int{}
